@@ -433,6 +433,19 @@ fn chunkings(text: &str, max_cuts: usize) -> Vec<Vec<Vec<u8>>> {
 }
 
 pub fn replay(case: &serde_json::Value) -> i32 {
+    if let Some(bytes) = case["invalid_utf8_input"].as_array() {
+        let text: Vec<u8> = bytes.iter().map(|b| b.as_u64().unwrap() as u8).collect();
+        let mut s = Setup::default();
+        s.argv = vec!["yash".into(), "-s".into()];
+        match case["chunks"].as_array() {
+            None => s.stdin = Some(text.clone()),
+            Some(c) => s.stdin_pipe_chunks = Some(c.iter().map(|x| x.as_array().unwrap().iter().map(|b| b.as_u64().unwrap() as u8).collect()).collect()),
+        }
+        s.cwd = Some("/".into());
+        let r = run_once(&s, &Default::default());
+        println!("input {:?}\nend={:?}\ntrace={:?}\nstderr={}", String::from_utf8_lossy(&text), r.end, r.all_trace(), r.stderr);
+        return 1;
+    }
     let text = case["text"].as_str().unwrap().to_string();
     let feed = match case["feed"].as_str().unwrap() {
         "File" => Feed::File,
@@ -451,6 +464,52 @@ pub fn replay(case: &serde_json::Value) -> i32 {
         println!("  pid {pid}: {:?} fds={:?}", p.state(), p.fds().keys().collect::<Vec<_>>());
     }
     1
+}
+
+/// `read` shares the shell's input and is given a line that is not valid UTF-8: every byte
+/// sequence class that is invalid or incomplete, followed by 0..4 more bytes of the line. However
+/// the built-in fails, it must not take anything beyond the newline of its line: the following
+/// lines run as they stand. File on fd 0, and a pipe in one chunk and in every two-chunk cut.
+fn read_invalid_utf8(ctx: &Ctx) -> u64 {
+    let bads: [&[u8]; 9] = [b"\xE9", b"\x80", b"\xC3", b"\xE2\x82", b"\xF0\x9F", b"\xF0\x9F\x98", b"\xFF", b"\xC0\xAF", b"\xED\xA0\x80"];
+    let mut work: Vec<(Vec<u8>, Option<Vec<Vec<u8>>>)> = vec![];
+    for bad in bads {
+        for head in [&b"caf"[..], &b""[..]] {
+            for tail in 0..=4usize {
+                let mut text = b"read x\n".to_vec();
+                text.extend_from_slice(head);
+                text.extend_from_slice(bad);
+                text.extend_from_slice(&b"zyxw"[..tail]);
+                text.extend_from_slice(b"\nargs after\np end 0\n");
+                work.push((text.clone(), None));
+                work.push((text.clone(), Some(vec![text.clone()])));
+                for cut in 1..text.len() {
+                    work.push((text.clone(), Some(vec![text[..cut].to_vec(), text[cut..].to_vec()])));
+                }
+            }
+        }
+    }
+    work.par_iter().for_each(|(text, chunks)| {
+        let mut s = Setup::default();
+        s.argv = vec!["yash".into(), "-s".into()];
+        match chunks {
+            None => s.stdin = Some(text.clone()),
+            Some(c) => s.stdin_pipe_chunks = Some(c.clone()),
+        }
+        s.cwd = Some("/".into());
+        let _g = case_guard(format!("read invalid utf8 {text:?}"));
+        let r = run_once(&s, &Default::default());
+        let tr = r.all_trace();
+        let ok = r.panic.is_none() && tr.iter().any(|t| t == "args[after]") && tr.iter().any(|t| t.starts_with("end:"));
+        if !ok {
+            ctx.violation(
+                "c18:read-took-bytes-of-the-next-line",
+                &format!("input {:?} (chunks {:?}): the lines after the data line of `read` did not run as they stand: trace {tr:?}, end {:?}, stderr {:?}", String::from_utf8_lossy(text), chunks.as_ref().map(|c| c.iter().map(|x| x.len()).collect::<Vec<_>>()), r.end, r.stderr),
+                json!({"invalid_utf8_input": text, "chunks": chunks}),
+            );
+        }
+    });
+    work.len() as u64
 }
 
 pub fn run(tier: Tier) -> i32 {
@@ -543,7 +602,10 @@ pub fn run(tier: Tier) -> i32 {
         }
         samples.offer(|| describe(&[]));
     });
+    let invalid_runs = read_invalid_utf8(&ctx);
+    execs.fetch_add(invalid_runs, Relaxed);
     let cov = json!({
+        "read_lines_with_invalid_utf8_runs": invalid_runs,
         "states": points.load(Relaxed) + execs.load(Relaxed),
         "transitions": steps.load(Relaxed),
         "traces_validated_against_impl": execs.load(Relaxed),
